@@ -3,7 +3,7 @@ import os, re
 import vlib, e2e, gen_conv, docs
 from vlib import show
 
-THEOREMS = ["C10_exit", "C10_one_result_per_file", "C10_each_unit_converted_once", "C10_unloadable_files_change_nothing", "C10_added_files_change_nothing", "C10_added_files_keep_results", "C10_convert_one_monotone", "C10_sort_filter", "C10_independence_example", "C10_priority_table", "C10_added_files_change_nothing_pods", "C10_pod_independence_example", "C10_one_result_per_file_with_dropins", "C10_each_unit_converted_once_with_dropins", "C10_unloadable_files_change_nothing_with_dropins", "C10_added_files_change_nothing_with_dropins", "C10_added_files_change_nothing_pods_with_dropins", "C10_lone_unit_result_any_order", "C10_lone_unit_example"]
+THEOREMS = ["C10_exit", "C10_one_result_per_file", "C10_each_unit_converted_once", "C10_unloadable_files_change_nothing", "C10_added_files_change_nothing", "C10_added_files_keep_results", "C10_convert_one_monotone", "C10_sort_filter", "C10_independence_example", "C10_priority_table", "C10_added_files_change_nothing_pods", "C10_pod_independence_example", "C10_one_result_per_file_with_dropins", "C10_each_unit_converted_once_with_dropins", "C10_unloadable_files_change_nothing_with_dropins", "C10_added_files_change_nothing_with_dropins", "C10_added_files_change_nothing_pods_with_dropins", "C10_lone_unit_result_any_order", "C10_lone_unit_example", "C10_group_result_any_surroundings"]
 
 BROKEN = {
     "syntax": "[Container\nImage=x\n",
